@@ -167,6 +167,49 @@ def setup_ws(Ctx, repo):
     return ws
 
 
+# Rust-only types anywhere inside a vtable entry's signature, pointees included (rustc's definition lints stop at
+# pointers: `&mut MaybeUninit<Option<u32>>` passes them although the foreign side has to read or write the Option)
+_NPO_OK = r"(?:\s|&|extern\b|unsafe\b|for\s*<|(?::: )?(?:core|std) :: ptr :: NonNull|NonNull\b|(?::: )?(?:core|std) :: num :: NonZero|NonZero|Box\b)"
+DEEP_RULES = [
+    ("Option", re.compile(r"(?<![\w])Option\s*<\s*(?!" + _NPO_OK + ")")),
+    ("Result", re.compile(r"(?<![\w])Result\s*<")),
+    ("slice", re.compile(r"&\s*(?:'\w+\s+)?(?:mut\s+)?\[")),
+    ("str", re.compile(r"(?<![\w])str(?![\w])")),
+    ("String", re.compile(r"(?<![\w])String(?![\w])")),
+    ("Vec", re.compile(r"(?<![\w])Vec\s*<")),
+    ("dyn", re.compile(r"(?<![\w])dyn\s")),
+]
+
+
+def deep_rust_only(fty):
+    """name of the first Rust-only type constructor found anywhere in a fn-pointer type (token string), or None"""
+    for name, rx in DEEP_RULES:
+        if rx.search(fty):
+            return name
+    return None
+
+
+def store_signature(Ctx, exe_path, what):
+    p = subprocess.run([exe_path, "signature-store"], env=dict(Ctx.ENV, CARGO_MANIFEST_DIR=os.path.join(Ctx.ENGINE, "h_objbase")),
+                       stdout=subprocess.PIPE, stderr=subprocess.PIPE, text=True)
+    if p.returncode != 0:
+        raise Ctx.Machinery("expander signature-store (%s) failed: %s" % (what, p.stderr[-1500:]))
+    return json.loads(p.stdout)
+
+
+def build_ext_expander(Ctx):
+    """the same expander built in its own workspace against cglue-gen with the `task` and `futures` features"""
+    ws = os.path.join(Ctx.ROOT, "engine_ext")
+    env = dict(Ctx.ENV)
+    env.pop("RUSTFLAGS", None)
+    env["CARGO_TARGET_DIR"] = os.path.join(Ctx.BUILD, "target-ext")
+    p = subprocess.run(["cargo", "build", "--offline", "--release", "-p", "expander_ext"], cwd=ws, env=env, stdout=subprocess.PIPE, stderr=subprocess.STDOUT, text=True)
+    if p.returncode != 0:
+        Ctx.log(p.stdout[-3000:])
+        raise Ctx.Machinery("cargo build failed for engine_ext/expander_ext")
+    return os.path.join(Ctx.BUILD, "target-ext", "release", "expander_ext")
+
+
 def run(prop, tier, replay, Ctx):
     repo = os.environ.get("VERIF_REPO_DIR", "/repo")
     Ctx.cargo_build("expander", ["expander"])
@@ -229,16 +272,25 @@ def run(prop, tier, replay, Ctx):
         raise Ctx.Machinery("positive control: expected >= 3 FFI lint errors and nothing else, got %d lint / %d total: %s" % (
             len(ctl_lints), len(ctl), [m.get("message") for m in ctl][:5]))
     rep.note("ffi_lints", "positive_control_lint_errors", len(ctl_lints))
+    rep.assume("lint errors on the generated `impl <user trait> for <opaque object>` of traits whose methods the user declared `extern \"C\"` are not counted: that item repeats the user's own signature; the vtable entries and wrappers of the same trait are linted")
     # ---- everything else must be clean; a non-lint error is a machinery failure (the expansion must compile)
     lint_errs = {}
+    mirrored_user_sigs = 0
     for crate, ms in by_crate.items():
         for m in ms:
             code = (m.get("code") or {}).get("code")
             if code not in ("improper_ctypes_definitions", "improper_ctypes"):
                 raise Ctx.Machinery("probe crate %s does not compile: %s" % (crate, (m.get("rendered") or m.get("message"))[:1500]))
             line = (m.get("spans") or [{}])[0].get("line_start", 0)
+            ltxt = (line_maps.get(crate, []) + [""])[line - 1] if line else ""
+            if re.match(r"impl\b.*\bT\d+ < > for CGlueO \{", ltxt) and "extern \"C\" fn" in ltxt:
+                # the generated impl of the USER'S trait for the opaque object repeats the user's own `extern "C" fn` signature
+                # (Rust types by the user's choice); the property speaks about the vtable entries and wrappers, which are other items
+                mirrored_user_sigs += 1
+                continue
             mod = enclosing_mod(line_maps.get(crate, []), line) if crate.startswith("p_hs_") else None
             lint_errs.setdefault((crate, mod), []).append(m)
+    rep.note("ffi_lints", "lint_errors_on_mirrored_user_signatures(not counted)", mirrored_user_sigs)
     if rc != 0 and not msgs:
         raise Ctx.Machinery("cargo check failed without compiler messages: %s" % stderr[-1500:])
     rep.rule("ffi_lints", "every trait of the grammar tier (see C01), every generated group family, the hand-written structure members (five wrap_with forms) and every runtime wrapper type x element type in argument, return and fn-pointer-field position is expanded by the real generator and compiled with the FFI lints denied; one case per trait / group family / runtime type; distinct = distinct shapes")
@@ -266,9 +318,13 @@ def run(prop, tier, replay, Ctx):
         viol = ("ffi_lint:runtime:%s" % name, "rustc rejects %s in an extern \"C\" signature: %s" % (ty, mine[0].get("message"))) if mine else None
         rep.record("ffi_lints", {"runtime_type": ty}, obs=ty, violation=viol)
     # ---- structural pass: vtable fields are extern "C" fn, generated structs carry a C representation
-    rep.rule("structure", "token-level pass over the same expansions: every field of every generated *Vtbl struct is an `extern \"C\" fn` pointer (plus zero-sized PhantomData markers), and every generated struct (vtables, RetTmp, containers, groups and their With/Final variants) carries #[repr(C)] or #[repr(transparent)]")
-    for name, src, kind in ins:
-        sig = signature(Ctx, exe, src, os.path.join(Ctx.ENGINE, "h_objbase"))
+    rep.rule("structure", "token-level pass over the same expansions and over the library's own built-in external traits (what cglue_builtin_ext_traits!() expands to, without features and with cglue-gen's task + futures features: Clone, fmt::*, AsRef, ..., Future, Stream, Sink): every field of every generated *Vtbl struct is an `extern \"C\" fn` pointer (plus zero-sized PhantomData markers) whose signature contains no Rust-only type constructor at any depth, pointees included (Option of a non-nullable-optimised payload, Result, slice, str, String, Vec, dyn), and every generated struct (vtables, RetTmp, containers, groups and their With/Final variants) carries #[repr(C)] or #[repr(transparent)]")
+    sigs = [(name, signature(Ctx, exe, src, os.path.join(Ctx.ENGINE, "h_objbase"))) for name, src, kind in ins]
+    sigs.append(("builtin_ext_traits", store_signature(Ctx, exe, "default features")))
+    sigs.append(("builtin_ext_traits+task+futures", store_signature(Ctx, build_ext_expander(Ctx), "task + futures")))
+    for name, sig in sigs:
+        if name.startswith("builtin_ext_traits") and not any(st["struct"].endswith("Vtbl") for st in sig):
+            raise Ctx.Machinery("the expansion of the built-in external traits (%s) contains no vtable" % name)
         for st in sig:
             sname = st["struct"]
             generated = "CGlue" in st["generics"] or sname.endswith("Vtbl") or "RetTmp" in sname
@@ -285,6 +341,10 @@ def run(prop, tier, replay, Ctx):
                     t = re.sub(r"^for\s*<[^>]*>\s*", "", t)
                     if not t.startswith("extern \"C\" fn"):
                         viol = ("structure:non_c_abi_entry", "vtable %s field %s has type `%s` (not an extern \"C\" function pointer)" % (sname, fname, fty[:120]))
+                        break
+                    bad = deep_rust_only(t)
+                    if bad:
+                        viol = ("structure:rust_only_type_in_entry:%s" % bad, "vtable %s (%s) entry %s has the signature `%s`: a Rust-only `%s` is reachable from it (possibly behind a pointer), the foreign side cannot produce or read it" % (sname, name, fname, fty[:200], bad))
                         break
             rep.record("structure", {"input": name, "struct": sname}, obs=[sname, [f[1] for f in st["fields"]]], violation=viol)
     if replay is not None:
